@@ -174,6 +174,12 @@ def frames_alphabet():
     F["ping-critical"] = rc.encode_tcp(PING, b"\x35", [(9, b"")], b"")
     F["pong-critical"] = rc.encode_tcp(PONG, b"\x36", [(9, b"")], b"")
     F["pong-elective"] = rc.encode_tcp(PONG, b"\x37", [(2, b"")], b"")     # Custody: elective, ignored
+    # elective options do not change what a signalling message means (Custody, Hold-Off, Bad-CSM-Option); a critical one behind
+    # an elective one is still critical
+    F["ping-elective"] = rc.encode_tcp(PING, b"\x38", [(2, b"")], b"")
+    F["release-elective"] = rc.encode_tcp(RELEASE, b"", [(4, rc.uint(3))], b"")
+    F["abort-elective"] = rc.encode_tcp(ABORT, b"", [(2, rc.uint(7))], b"bye")
+    F["ping-elective-critical"] = rc.encode_tcp(PING, b"\x39", [(2, b""), (9, b"")], b"")
     F["release-critical"] = rc.encode_tcp(RELEASE, b"", [(7, b"x")], b"")
     F["abort-critical"] = rc.encode_tcp(ABORT, b"", [(7, b"x")], b"")
     # the last frame that still fits and the first that does not (the limit counts the whole frame)
@@ -351,7 +357,8 @@ def run_sequence(res, names, F, tier, only=None):
 def bad_frame(names):
     for n in names:
         if n in ("csm-critical", "big", "tkl9", "bad-nibble", "opt-past-end", "bad-utf8", "sig-unknown", "empty", "release", "abort", "ping-critical",
-                 "pong-critical", "release-critical", "abort-critical", "edge1a", "edge1b"):
+                 "pong-critical", "release-critical", "abort-critical", "edge1a", "edge1b", "release-elective", "abort-elective",
+                 "ping-elective-critical"):
             return n
         if n.startswith("sz"):
             return "size-boundary"
@@ -360,7 +367,7 @@ def bad_frame(names):
 
 def client_role(res):
     """Pending client requests fail with a network error on Release/Abort; matching responses are delivered."""
-    for ender, with_csm, displaced in itertools.product(("release", "abort", "eof-close"), (True, False), (False, True)):
+    for ender, with_csm, displaced in itertools.product(("release", "abort", "eof-close", "release-elective", "abort-elective"), (True, False), (False, True)):
         if True:
             h = Harness(False)
             try:
